@@ -85,7 +85,12 @@ class Padding(JupyterMixin):
             width = options.max_width
         else:
             width = min(
-                Measurement.get(console, self.renderable, options.max_width).maximum
+                max(
+                    1,
+                    Measurement.get(
+                        console, self.renderable, options.max_width
+                    ).maximum,
+                )
                 + self.left
                 + self.right,
                 options.max_width,
